@@ -15,14 +15,13 @@ PROPERTY = 'C09'
 LEVEL = 'exploration'
 RULE = ('Batches of generated coarse-grained molecules: 1-6 particles, each with 0-12 constituent atoms drawn from a '
         'shared pool of positioned/unpositioned atoms (position absent or None), weights from {all ones, small '
-        'integers with zeros, fractions, masses, wide range 1e-3..1e3, all zero}, mapping_weights complete, partial '
+        'integers with zeros, fractions, masses, wide range 1e-3..1e3, all tiny (multiples of 1e-9), all zero}, mapping_weights complete, partial '
         'or absent, centre weight configured through the force-field variable / explicitly / disabled, 2-D and 3-D, '
         'coordinate scale 1..1e4; plus particles produced by the real do_mapping on synthetic force fields. Every '
         'molecule is run twice (original and rigidly moved frame). Non-trivial particle = >= 2 positioned '
         'constituents with unequal effective weights and >= 1 constituent without position or with weight 0; '
         'distinct = distinct (constituent keys, weights, positions) hashes. Also: one processor object first run on a primer molecule whose force field configures the centre weight differently; coordinates stored as integer arrays.')
-ASSUMPTIONS = ['weights are 0 or >= 1e-3 (the code treats |sum| < 1e-7 as zero, which the statement permits only for '
-               'genuinely zero sums)', 'tolerance 1e-9 x (1 + largest |coordinate|)']
+ASSUMPTIONS = ['weights are 0, multiples of 1e-9 or >= 1e-3; a sum counts as zero only when it is zero', 'tolerance 1e-9 x (1 + largest |coordinate|)']
 MIN_HITS = {'quick': 20000, 'thorough': 800000}
 CASE_TIMEOUT = 600
 MASSES = [1.008, 12.011, 14.007, 15.999, 32.06, 0.0]
@@ -59,7 +58,7 @@ def gen(rnd):
     for _ in range(rnd.randint(1, 6)):
         k = rnd.randint(0 if rnd.random() < 0.1 else 1, min(12, natoms))
         cons = rnd.sample(keys, k)
-        style = rnd.choice(['ones', 'ints', 'ints', 'frac', 'wide', 'zero', 'zero_pos'])
+        style = rnd.choice(['ones', 'ints', 'ints', 'frac', 'wide', 'zero', 'zero_pos', 'tiny'])
         w = {}
         for c in cons:
             if style == 'ones':
@@ -72,6 +71,10 @@ def gen(rnd):
                 w[c] = 10 ** rnd.uniform(-3, 3) if rnd.random() < 0.85 else 0
             elif style == 'zero':
                 w[c] = 0
+            elif style == 'tiny':
+                # all weights of a particle far below 1 (a mapping normalised over a large number of atoms, weights given in
+                # other units): their sum is not zero and the mean is as well defined as for weights around 1
+                w[c] = rnd.choice([0, 1, 1, 2, 3]) * 1e-9
             else:
                 w[c] = 0 if atoms[c].get('position') is not None else rnd.choice([0, 1, 2])
         mw = rnd.choice(['full', 'full', 'partial', 'absent'])
